@@ -146,6 +146,7 @@ def run(prog: Program, res: Result, tier: str) -> None:
                 node.generators[0].iter) == "graph.bonds" and \
                 node.generators[0].ifs:
             excl = node.generators[0].ifs[0]
+            node_of_excl = node
     for m in members:
         role = m.lower()
         section = f"{m.capitalize()} Bonds"
@@ -169,10 +170,23 @@ def run(prog: Program, res: Result, tier: str) -> None:
         if excl is not None:
             # one level of definitions of the names used in the filter
             # (flow-insensitive closures would drag in unrelated loops)
-            for nm in {x.id for x in ast.walk(excl) if isinstance(x, ast.Name)}:
+            # (set unions of such names are followed, up to three levels)
+            own = {x.id for g_ in node_of_excl.generators
+                   for x in ast.walk(g_.target) if isinstance(x, ast.Name)}
+            work = [(nm, 0) for nm in {x.id for x in ast.walk(excl)
+                                       if isinstance(x, ast.Name)} - own]
+            seen_nm = set()
+            while work:
+                nm, lvl = work.pop()
+                if nm in seen_nm or lvl > 3:
+                    continue
+                seen_nm.add(nm)
                 for d in du.defs.get(nm, ()):
                     if isinstance(d, ast.Call):
                         ex_dep += " " + norm(d, 300)
+                    elif isinstance(d, (ast.BinOp, ast.Name)):
+                        work += [(x.id, lvl + 1) for x in ast.walk(d)
+                                 if isinstance(x, ast.Name)]
         if excl is not None and f"get_{role}_bonds()" in ex_dep and \
                 " not in " in norm(excl):
             res.ok("J-ENUM", inst, w.loc(excl))
